@@ -390,6 +390,19 @@ class Analysis:
                     self.zero = i0["k"] == "Int" and i0["v"] == 0
                     if self.zero and getattr(self, "nonempty", False):
                         st = 1
+                    # a position taken from the container's own index of existing elements (Deck::index(keyword) lists the
+                    # positions at which the keyword occurs) is a valid subscript
+                    src_ = i0
+                    if src_.get("k") == "Ref" and src_.get("d") == "Var":
+                        defs_ = [w for d_ in walk_nl(self.fn["body"]) if d_["k"] == "Decl" for w in d_["vars"] if w["n"] == src_["n"] and w.get("init") is not None]
+                        asg_ = [d_ for d_ in walk_nl(self.fn["body"]) if d_["k"] == "Bin" and d_.get("asg") and strip(d_["c"][0]).get("n") == src_["n"]]
+                        if len(defs_) == 1 and not asg_:
+                            src_ = strip(defs_[0]["init"])
+                    m_, o_ = meth(src_)
+                    if m_ in ("front", "back") and o_ is not None:
+                        m2, o2 = meth(strip(o_))
+                        if m2 == "index" and o2 is not None and self.c.is_cont(o2):
+                            st = 1
             return st
         if k in ("ForRange", "Switch"):
             if k == "Switch":
